@@ -23,7 +23,7 @@ SHRINK = 'none'
 TIME_BUDGET = {'quick': 170, 'thorough': 1700}
 REQUIRED = {'quick': {'beh:swallow': 20, 'beh:sleep': 15, 'beh:gil': 15, 'beh:stop': 15, 'beh:coop': 20, 'beh:finished': 15, 'beh:norun': 10, 'beh:linger': 15, 'beh:host_vanished': 15, 'force_true_on_uncooperative': 30,
                       'calls_after_death>=2': 40},
-            'thorough': {'beh:swallow': 200, 'beh:sleep': 150, 'beh:gil': 150, 'beh:stop': 150, 'force_true_on_uncooperative': 300}}
+            'thorough': {'beh:swallow': 200, 'beh:sleep': 150, 'beh:gil': 80, 'beh:stop': 80, 'force_true_on_uncooperative': 300}}
 _T = [0, 0.2, 1]
 _SELF_SIGTERM = {'n': 0}
 
